@@ -43,7 +43,7 @@ class C05(Check):
         "Datastore.buckets(), Bucket.metadata() and the event listing are compared with a dict model; non-trivial = a "
         "bucket holding events was deleted or a missing-bucket operation was issued; distinct = (backend, op-kind sequence)"
     )
-    expected_probes = ["delete_with_events", "recreate_after_delete", "update_live", "missing_lookup", "missing_describe", "missing_update", "missing_delete", "stale_handle_describe", "restart_clean", "new_datastore", "name_omitted", "data_given"]
+    expected_probes = ["delete_with_events", "recreate_after_delete", "update_live", "missing_lookup", "missing_describe", "missing_update", "missing_delete", "stale_handle_describe", "restart_clean", "new_datastore", "name_omitted", "data_given", "event_observation_deferred"]
     assumptions = ["duplicate creation of a live id is not generated (the property is silent about it)", "update fields are non-empty strings / non-empty dicts (the property's quantifier)"]
 
     def gen(self, seed, idx, tier):
@@ -60,9 +60,9 @@ class C05(Check):
             parties.append(actors.Importer(rs["imp%d" % k], cfg, b))
         parties.append(actors.Operator(rs["oper"], {"dirty_p": 0.0}))
         weights = {"admin": 3.0, "importer": 0.6, "operator": 0.25}
-        nsteps = r.choice([3, 6, 10, 20, 40])
+        nsteps = r.choice([3, 6, 10, 20, 40] + ([80, 160] if tier == "thorough" else []))
         steps = actors.schedule(rs["sched"], parties, weights, nsteps)
-        return {"backend": backend, "steps": steps, "lat": lat}
+        return {"backend": backend, "steps": steps, "lat": lat, "observe_every": r.choice([1, 1, 4, 9])}
 
     def start(self, world, run):
         super().start(world, run)
@@ -70,6 +70,9 @@ class C05(Check):
         self.count = {}
         self.ever = set()
         self._nt = False
+        self._k = run.get("observe_every", 1)
+        self._last_op = "start"
+        self._last_missing = False
 
     @staticmethod
     def expected_meta(b, m):
@@ -110,6 +113,9 @@ class C05(Check):
         exc = out.get("exc")
         pr = world.probes
         live = b in self.model
+        self._last_op = op
+        if op in ("update", "delete_bucket", "lookup", "describe"):
+            self._last_missing = not live
         if op == "create":
             if exc is not None:
                 raise Violation("listing", "create_bucket raised %r" % (exc,), {"op": op})
@@ -190,7 +196,17 @@ class C05(Check):
         # the whole map, after every step (missing-bucket operations change nothing)
         try:
             self._cmp_listing(world, op)
-            self._cmp_counts(world, op)
+            if self._k == 1 or i % self._k == 0 or op in ("restart_clean", "new_datastore"):
+                self._cmp_counts(world, op)
+            else:
+                # deferred observation: no event read (it would flush the lazily-committing store); only keep the
+                # harness's notion of which buckets exist in step with the model
+                world.probes["event_observation_deferred"] += 1
+                for b2 in list(world.view):
+                    if b2 not in self.model:
+                        del world.view[b2]
+                for b2 in self.model:
+                    world.view.setdefault(b2, {"meta": None, "events": []})
         except Violation as v:
             if not live and op in ("update", "delete_bucket", "lookup", "describe"):
                 raise Violation("missing_changes_nothing", v.message, {"op": op})
@@ -200,6 +216,12 @@ class C05(Check):
 
     def after_skip(self, world, step, out, i):
         pass
+
+    def finish(self, world, run):
+        try:
+            self._cmp_counts(world, "end of history")
+        except Violation as v:
+            raise Violation("missing_changes_nothing" if self._last_missing else v.tag, v.message, {"op": self._last_op})
 
     def nontrivial(self, world, run, res):
         return self._nt
